@@ -136,6 +136,27 @@ def r10a(repo, chk):
                 good = good and isinstance(v, ast.Dict) and any(isinstance(k, ast.Constant) and k.value == "error" for k in v.keys)
             chk.judge("R10.a", f"compiler:Compiler.compile:handler {hname} returns an error dictionary", good,
                       "handler does not end in returning {'error': ...}", None, f"{cm.path}:{h.lineno}")
+            # positions taken from the exception may be None (SyntaxError.offset / lineno): no arithmetic or indexing without a None test
+            if h.name:
+                for op_ in ast.walk(h):
+                    operands = []
+                    if isinstance(op_, ast.BinOp):
+                        operands = [op_.left, op_.right]
+                    elif isinstance(op_, ast.UnaryOp) and isinstance(op_.op, ast.USub):
+                        operands = [op_.operand]
+                    elif isinstance(op_, ast.Call) and norm(op_.func) in ("int", "max", "min", "abs", "len", "range"):
+                        operands = list(op_.args)
+                    for x in operands:
+                        if isinstance(x, ast.Attribute) and norm(x).startswith(h.name + ".") and x.attr in ("lineno", "offset", "end_lineno", "end_offset", "col_offset", "end_col_offset"):
+                            ids = [y.id for y in ccfg.nodes_of(x)]
+                            g = []
+                            for i in ids:
+                                g += [(norm(t), p) for t, p in ccfg.guards(i) if isinstance(t, ast.expr)]
+                            tx = norm(x)
+                            okn = any((p and t in (f"{tx} is not None", f"isinstance({tx}, int)", tx)) or ((not p) and t == f"{tx} is None") for t, p in g)
+                            chk.judge("R10.a", f"compiler:Compiler.compile:handler {hname} computes with {tx} under a None test", okn,
+                                      f"{norm(op_)[:60]} computes with {tx}, which is None for some errors (e.g. a NUL byte in the source): the handler itself raises "
+                                      f"TypeError and the error escapes compile_code", None, f"{cm.path}:{op_.lineno}")
             # optional parts of the exception are dereferenced only under a guard
             if h.name:
                 for a in ast.walk(h):
